@@ -169,6 +169,51 @@ def build(spec: dict) -> fstree.Tree:
     return t
 
 
+# fixed scenarios for the corners a random tree reaches only now and then: (files, links, settings, args, absent, present)
+SPECIAL = [
+    ({"outer/root/docs/api/ref.md": "x", "outer/root/docs/guide.md": "x", "outer/root/pkg/out/readme.md": "x", "outer/root/out/top.md": "x"}, {},
+     {"extend_exclude": ["docs/api/", "/out/"]}, ["outer/root/**/*.md"],
+     ["/outer/root/docs/api/ref.md", "/outer/root/out/top.md"], ["/outer/root/docs/guide.md", "/outer/root/pkg/out/readme.md"]),
+    ({"outer/root/docs/api/ref.md": "x", "outer/root/docs/guide.md": "x", "outer/root/pkg/out/readme.md": "x", "outer/root/out/top.md": "x"}, {},
+     {"extend_exclude": ["docs/api/", "/out/"]}, ["outer/root"],
+     ["/outer/root/docs/api/ref.md", "/outer/root/out/top.md"], ["/outer/root/docs/guide.md", "/outer/root/pkg/out/readme.md"]),
+    ({"outer/root/a/.flowmarkignore": "sub/x.md\n", "outer/root/a/sub/x.md": "x", "outer/root/a/sub/y.md": "x", "outer/root/a/x.md": "x"}, {},
+     {}, ["outer/root/a/**/*.md", "outer/root/a"], ["/outer/root/a/sub/x.md"], ["/outer/root/a/sub/y.md", "/outer/root/a/x.md"]),
+    ({"outer/root/alpha/z.md": "x", "outer/root/beta/a.md": "x"}, {"outer/root/zlink": "outer/root/alpha"},
+     {}, ["outer/root/zlink", "outer/root/beta"], [], ["/outer/root/alpha/z.md", "/outer/root/beta/a.md"]),
+    ({"outer/root/big.md": "x" * 101, "outer/root/ok.md": "x" * 100, "outer/root/node_modules/n.md": "x"}, {},
+     {"files_max_size": 100, "force_exclude": True}, ["outer/root/big.md", "outer/root/ok.md", "outer/root/node_modules/n.md"],
+     ["/outer/root/big.md", "/outer/root/node_modules/n.md"], ["/outer/root/ok.md"]),
+    ({"outer/root/node_modules/n.md": "x", "outer/root/a.md": "x"}, {}, {"force_exclude": False},
+     ["outer/root/node_modules/n.md", "outer/root/a.md", "outer/root/a.md"], [], ["/outer/root/node_modules/n.md", "/outer/root/a.md"]),
+]
+
+
+def special_scenarios(ctx: Ctx) -> None:
+    for files, links, settings, args, absent, present in SPECIAL:
+        t = build({"files": files, "links": links})
+        try:
+            for rel in (False, True):
+                if rel:
+                    os.chdir(t.base / "outer")
+                    a = [x[len("outer/"):] for x in args]
+                else:
+                    a = [str(t.base / x) for x in args]
+                real = fstree.real_resolve(settings, a)
+                got = short(t, real)
+                ctx.count(["special", sorted(files), settings, args, rel], nontrivial=True)
+                ctx.bump("special-scenarios")
+                case = {"files": sorted(files), "links": links, "settings": settings, "args": a, "relative": rel}
+                if any(x in got for x in absent) or any(x not in got for x in present):
+                    ctx.fail("SOUND/COMPLETE: a fixed scenario lists a file it must not, or misses one it must list", case,
+                             {"listed": got, "must_not": absent, "must": present})
+                elif real != [str(p) for p in sorted(Path(x) for x in real)] or len(set(real)) != len(real):
+                    ctx.fail("SORTED_NODUP: result is not sorted or has duplicates", case, got)
+        finally:
+            os.chdir("/")
+            t.close()
+
+
 def replay_findings(ctx: Ctx) -> None:
     for fid, e in ctx.kf.items():
         c = e.get("input") or {}
@@ -188,6 +233,7 @@ def run(ctx: Ctx) -> None:
     replay_findings(ctx)
     if driver_ok:
         ctx.guard("tie resolve", resolvetie.tie_resolve, ctx.scale(250, 5000), False)
+    special_scenarios(ctx)
     oracle(ctx, ctx.scale(350, 8000), git=True)
     cli_oracle(ctx, ctx.scale(12, 300))
     ctx.rule("random trees (depth ≤ 4, names incl. default-excluded ones, sizes around the limit, links to files/directories inside and "
